@@ -453,6 +453,7 @@ var nameAlphabets = []string{
 	"測試消息名前",
 	"😀🚀✓→≤",
 	"ıſŉǰΐİẞⱥⱦȺ", // case mapping changes the UTF-8 length of these
+	"\ufeff\u200b\u00ad\u2060\u200d\u034f\u061c\ufffd", // invisible / ignorable characters: none of them is white space, all are part of a name
 }
 
 func genMsgName(t *rapid.T) string {
@@ -462,7 +463,7 @@ func genMsgName(t *rapid.T) string {
 	n := rapid.IntRange(1, 10).Draw(t, "nameLen")
 	var sb strings.Builder
 	for i := 0; i < n; i++ {
-		alpha := []rune(nameAlphabets[rapid.SampledFrom([]int{0, 0, 0, 0, 1, 2, 3, 4, 5}).Draw(t, "alpha")])
+		alpha := []rune(nameAlphabets[rapid.SampledFrom([]int{0, 0, 0, 0, 1, 2, 3, 4, 5, 6}).Draw(t, "alpha")])
 		sb.WriteRune(alpha[rapid.IntRange(0, len(alpha)-1).Draw(t, "nc")])
 	}
 	s := sb.String()
